@@ -201,6 +201,60 @@ func c04LowReserveBoard(r *rand.Rand, size int) *tak.Position {
 	return nil
 }
 
+// c04TallStackBoard: a sparse board with one or two tall stacks owned by the mover away from the edges: on 7x7 / 8x8 such
+// positions have more than 500 generated moves (more than the engine's preallocated per-frame buffers hold).
+func c04TallStackBoard(r *rand.Rand, size int) *tak.Position {
+	board := make([][]tak.Square, size)
+	for y := range board {
+		board[y] = make([]tak.Square, size)
+	}
+	mover := tak.White
+	if r.Intn(2) == 0 {
+		mover = tak.Black
+	}
+	rc := func() tak.Color {
+		if r.Intn(2) == 0 {
+			return tak.White
+		}
+		return tak.Black
+	}
+	for k := 1 + r.Intn(2); k > 0; k-- {
+		x, y := size/2-1+r.Intn(2), size/2-1+r.Intn(2)
+		h := size + r.Intn(5)
+		top := tak.Flat
+		if r.Intn(3) == 0 {
+			top = tak.Capstone
+		}
+		sq := tak.Square{tak.MakePiece(mover, top)}
+		for j := 1; j < h; j++ {
+			sq = append(sq, tak.MakePiece(rc(), tak.Flat))
+		}
+		board[y][x] = sq
+	}
+	for k := r.Intn(2 * size); k > 0; k-- {
+		x, y := r.Intn(size), r.Intn(size)
+		if len(board[y][x]) == 0 {
+			kind := tak.Flat
+			if r.Intn(5) == 0 {
+				kind = tak.Standing
+			}
+			board[y][x] = tak.Square{tak.MakePiece(rc(), kind)}
+		}
+	}
+	cfg := tak.Config{Size: size}
+	fitReserves(r, &cfg, board)
+	cfg.Pieces += 5
+	move := 2 * (5 + r.Intn(20))
+	if mover == tak.Black {
+		move++
+	}
+	p, err := tak.FromSquares(cfg, board, move)
+	if err != nil {
+		return nil
+	}
+	return p
+}
+
 func c04GenPosition(r *rand.Rand, size int, kind string) *tak.Position {
 	for try := 0; try < 40; try++ {
 		var p *tak.Position
@@ -264,6 +318,8 @@ func c04GenPosition(r *rand.Rand, size int, kind string) *tak.Position {
 				}
 				p = ps[k]
 			}
+		case "tallstack":
+			p = c04TallStackBoard(r, size)
 		case "constructed":
 			maxH := []int{2, 4, 6, 10}[r.Intn(4)]
 			q, _, mv := constructedBoard(r, size, maxH, 0.15+0.7*r.Float64())
@@ -427,7 +483,10 @@ func c04Plant(o *c04Out, eng *ai.MinimaxAI, k c04MMCfg, p *tak.Position, seed in
 			if over, _ := q.GameOver(); over {
 				continue
 			}
-			if m, ok := c04IllegalMove(r, q); ok && ai.VerifPlantTable(eng, q.Hash(), m, r.Int63n(2001)-1000, 1, 15) {
+			// depth d-1: enough for the shortcut one ply below the root in every iteration, but never >= Cfg.Depth, so that a later
+			// call whose ROOT is this child does not take the entry as Analyze's (unvalidated) seed: that path is only reachable
+			// through a true 64-bit collision at the root and is outside the simulation (DESIGN 5.4, NoCollisionOn)
+			if m, ok := c04IllegalMove(r, q); ok && ai.VerifPlantTable(eng, q.Hash(), m, r.Int63n(2001)-1000, 1, d-1) {
 				o.stat("mm_planted_child_entries", 1)
 			}
 		}
@@ -862,8 +921,12 @@ func c04Parallel(jobs []c04Job) []*c04Out {
 			defer wg.Done()
 			for i := range ch {
 				o := &c04Out{stats: map[string]int64{}}
+				t0 := time.Now()
 				if pan, msg := safely(func() { jobs[i].run(o) }); pan {
 					o.fail("harness-panic", jobs[i].desc, "the harness itself panicked: "+msg, "-")
+				}
+				if d := time.Since(t0); d > 20*time.Second && os.Getenv("C04_TIMING") != "" {
+					fmt.Fprintf(os.Stderr, "C04 slow job %.1fs: %s\n", d.Seconds(), jobs[i].desc)
 				}
 				outs[i] = o
 			}
@@ -902,11 +965,11 @@ func c04RandMMCfg(r *rand.Rand, size int, thorough bool) c04MMCfg {
 			k.maxEvals = []uint64{1, 40, 400, 3000}[r.Intn(4)]
 		}
 	}
-	if thorough && k.depth >= 1 && k.depth <= 4 && r.Intn(4) == 0 {
+	if thorough && k.depth >= 1 && k.depth <= 4 && r.Intn(5) == 0 {
 		switch {
-		case size <= 4:
+		case size == 3:
 			k.depth = 4 + r.Intn(3)
-		case size <= 6:
+		case size <= 5:
 			k.depth = 4 + r.Intn(2)
 		default:
 			k.depth = 4
@@ -945,7 +1008,7 @@ func c04RandMMCfg(r *rand.Rand, size int, thorough bool) c04MMCfg {
 	return k
 }
 
-var c04Kinds = []string{"opening", "opening", "middle", "middle", "middle", "nearterm", "nearterm", "lowres", "lowres", "constructed"}
+var c04Kinds = []string{"opening", "opening", "middle", "middle", "middle", "nearterm", "nearterm", "lowres", "lowres", "constructed", "tallstack"}
 
 func runC04(c *ctx) {
 	if c.tier == "replay" {
@@ -1009,6 +1072,9 @@ func runC04(c *ctx) {
 				calls[i].mode = 'G'
 			default:
 				calls[i].mode = 'L'
+			}
+			if k.depth >= 5 && calls[i].mode == 'L' && r.Intn(4) != 0 {
+				calls[i].mode = 'A'
 			}
 			if r.Intn(6) == 0 && i > 0 { // the same position asked twice on one engine
 				calls[i].pos = calls[i-1].pos
@@ -1162,6 +1228,9 @@ func runC04(c *ctx) {
 		}
 		if pp.p.MoveNumber() < 2 {
 			c.stat("positions_ply_lt2", 1)
+		}
+		if len(pp.p.AllMoves(nil)) > 500 {
+			c.stat("positions_more_than_500_generated_moves", 1)
 		}
 		if len(lm) == 0 {
 			c.printf("ORACLE-FAIL live-position-without-legal-move | %s | AllMoves holds no legal move | a live position has a legal placement\n", c04PosStr(pp.p))
